@@ -7,6 +7,8 @@ import (
 	"flag"
 	"fmt"
 	"os"
+	"runtime/debug"
+	"runtime/pprof"
 	"sort"
 	"strings"
 	"time"
@@ -16,6 +18,7 @@ import (
 )
 
 func main() {
+	debug.SetMemoryLimit(6 << 30)
 	if len(os.Args) < 2 {
 		fmt.Fprintln(os.Stderr, "usage: gosym worker | run | check <ID> [--tier quick|thorough] | replay <file>")
 		os.Exit(2)
@@ -104,6 +107,11 @@ func run(args []string) {
 	}
 	p := load()
 	defer p.Close()
+	if pf := os.Getenv("GOSYM_CPUPROF"); pf != "" {
+		f, _ := os.Create(pf)
+		pprof.StartCPUProfile(f)
+		defer pprof.StopCPUProfile()
+	}
 	qs := interp.EnableQueryStats()
 	defer func() { fmt.Println("query kinds:", qs) }()
 	t0 := time.Now()
